@@ -69,7 +69,7 @@ def run(tier):
     run.functions = ['mindsdb_sql.parse_sql', 'sly.yacc.Parser.parse', '<Parser>.error', 'ErrorHandling.*', 'every grammar action reached',
                      'MindsDBLexer.error', 'grammar actions as units (see obligation list)']
     run.assumptions = ['SYMTOK: token values are one representative lexeme per terminal; value-dependent crashes are the CH action units\' job',
-                       'RecursionError on deeply nested input is a resource bound, not modelled',
+                       'RecursionError: a concrete size family (every directly recursive production pumped 600/900 times in its shortest context, plus operator chains / nestings written out) must parse or be rejected; deeper input is outside the claim',
                        'lexer totality for arbitrary text: see U1 (error reporter) and C01 (LEXZ3)']
     for d in SW.DIALECTS:
         for K in KS:
@@ -97,12 +97,24 @@ def run(tier):
         C02_units.add(run, tier)
     from harness import c02u2
     c02u2.add(run, tier)
+    from harness import c02deep
+    c02deep.add(run, tier)
     run.finish()
 
 
 def replay(path):
     r = json.load(open(path))
     print(json.dumps(r, indent=1))
+    sf = r['replay'].get('size_family')
+    if sf:
+        from harness import c02deep
+        N, jobs = c02deep.family('thorough' if ' x 9' in sf['label'] else 'quick')
+        for d, label, sql in jobs:
+            if d == sf['dialect'] and label == sf['label']:
+                res = c02deep._one((d, label, sql))
+                print('native replay now:', res)
+                return 1 if res[2].startswith(('internal', 'non-tree')) else 0
+        return 2
     f = r['replay'].get('finding')
     if f:
         rep, info = replay_internal(f)
